@@ -571,7 +571,10 @@ func (p *printer) writeListInner(v *lisp.LVal, indent int) {
 //
 // Found by FuzzFormat.
 func (p *printer) tryPrefixForm(v *lisp.LVal, indent int) bool {
-	if len(v.Cells) != 2 || v.Cells[0].Type != lisp.LSymbol {
+	// A QUOTED head is data, not the operator: ('lisp:function f) is a list
+	// whose first element is the quoted symbol, and writing it as #'f drops
+	// that quote and changes the tree.
+	if len(v.Cells) != 2 || v.Cells[0].Type != lisp.LSymbol || v.Cells[0].IsQuoted() {
 		return false
 	}
 	// The shorthand has nowhere to put a comment written inside the form: it
